@@ -29,7 +29,7 @@ func c09catalogue(r *simcore.RNG, n int) []c09sig {
 		var s c09sig
 		switch r.Intn(10) {
 		case 0, 1, 2, 3, 4:
-			s = c09sig{"mcu", pick(r, model3Names), pick(r, []string{"tri", "stl", "3mf"}), pick(r, []int{7, 9, 11, 12, 14, 16})}
+			s = c09sig{"mcu", pick(r, model3Names), pick(r, []string{"tri", "stl", "3mf"}), pick(r, []int{9, 12, 14, 16, 18, 20})} // >= 2..4 batches of 100 points per layer
 			if r.Intn(5) == 0 {
 				s.model = pick(r, model3Variants)
 			}
@@ -196,8 +196,25 @@ func planC09(tier string, root *simcore.RNG) *plan {
 		if heavy > 6000 && mod < 4 {
 			mod = 4
 		}
+		if heavy > 12000 && mod < 8 {
+			mod = 8
+		}
 		sc.Sites["eval.pre"] = mod
 		sc.Sites["eval.post"] = mod
+		// a third of the episodes also park inside the model: at yielding wrappers
+		// around the leaves of the composite, i.e. in the middle of a combinator's Evaluate
+		if r.Intn(3) == 0 {
+			for gi := range sc.Groups {
+				for ji := range sc.Groups[gi] {
+					if !sc.Groups[gi][ji].Share {
+						sc.Groups[gi][ji].Leaves = true
+					}
+				}
+			}
+			lm := pick(r, []uint32{1, 2, 4})
+			sc.Sites["leaf.pre"] = lm
+			sc.Sites["leaf.post"] = lm
+		}
 		sc.Sites["write"] = pick(r, []uint32{1, 4, 32})
 		sc.Sites["close"] = 1
 		for _, h := range []string{"go.start", "worker.start", "mc.sent", "cons.tri", "cons.stl", "cons.stl.flush", "cons.3mf", "cons.3mf.encode", "cons.dxf", "cons.dxf.save", "cons.svg", "cons.svg.save"} {
@@ -216,6 +233,56 @@ func planC09(tier string, root *simcore.RNG) *plan {
 			sc.Env.Race = true
 		}
 		pl.scenarios = append(pl.scenarios, sc)
+	}
+	// composites rendered by the worker pool with the evaluations parked inside
+	// the model (between the children of a union / intersection / array)
+	{
+		r0 := root.Fork()
+		have := map[string]bool{}
+		for _, s := range cat {
+			have[s.key()] = true
+		}
+		reps := 3
+		if tier == "thorough" {
+			reps = 40
+		}
+		type mc struct {
+			model string
+			cells int
+		}
+		// extrude-union2d is sensitive to how the lattice falls into the gap between
+		// two of its children: several resolutions (19 is known to be a sensitive one)
+		list := []mc{{"extrude-union2d", 19}, {"extrude-union2d", pick(r0, []int{17, 18, 20, 21, 22})},
+			{"multi-intersect", pick(r0, []int{14, 16, 18})}, {"csg", pick(r0, []int{14, 16, 18})},
+			{"sphere-box", pick(r0, []int{14, 16, 18})}, {"array", pick(r0, []int{14, 16, 18})}}
+		for _, e := range list {
+			model := e.model
+			s := c09sig{"mcu", model, "tri", e.cells}
+			if !have[s.key()] {
+				have[s.key()] = true
+				cat = append(cat, s)
+				sc := &Scenario{Prop: "C09", Family: "render", Seed: r0.Uint64(), Groups: [][]Job{{s.job(1)}},
+					Sched: Sched{Policy: "fifo"}, Sites: map[string]uint32{}, Env: Env{GOMAXPROCS: 16, CPUs: 16}, Note: "canonical"}
+				pl.scenarios = append(pl.scenarios, sc)
+			}
+			for k := 0; k < reps; k++ {
+				r := root.Fork()
+				j := s.job(1)
+				j.Leaves = true
+				j.EvalMod = 1
+				lm := pick(r, []uint32{2, 4})
+				sc := &Scenario{Prop: "C09", Family: "render", Seed: r.Uint64(), Groups: [][]Job{{j}},
+					Sites: map[string]uint32{"eval.pre": 8, "eval.post": 8, "leaf.pre": lm, "leaf.post": lm, "close": 1, "write": 32, "mc.sent": 1, "cons.tri": 1, "worker.start": 1},
+					Sched: genSched(r, []string{"evalpost", fmt.Sprintf("eval:%d", r.Intn(8))}), Env: Env{GOMAXPROCS: pick(r, []int{1, 4, 16}), CPUs: pick(r, []int{4, 16})}, Note: "inside-model"}
+				if sc.Sched.Policy == "fifo" || sc.Sched.Policy == "lifo" {
+					sc.Sched.Policy = "uniform"
+				}
+				if k%3 == 2 { // and on the race build: sharing inside the model is then judged by happens-before
+					sc.Env.Race = true
+				}
+				pl.scenarios = append(pl.scenarios, sc)
+			}
+		}
 	}
 	// histories of a program that keeps one renderer value and one model object
 	// and switches the model between its two states with the library's setters
